@@ -29,7 +29,18 @@ static void dprod_case()
   const Eigen::Matrix<double, N, N * NV> dA = rnd_mat<N, N * NV>(N, N * NV), dB = rnd_mat<N, N * NV>(N, N * NV);
   const auto out = smooth::d_matrix_product(A, dA, B, dB);
   Ev e;
-  e.str("op", "dprod").str("sc", "d").num("n", N).num("nvar", NV).mat("A", A).mat("dA", dA).mat("B", B).mat("dB", dB).mat("out", out);
+  e.str("op", "dprod").str("sc", "d").str("storage", "static").num("n", N).num("nvar", NV).mat("A", A).mat("dA", dA).mat("B", B).mat("dB", dB).mat("out", out);
+  sink.emit(e);
+}
+
+// dynamic-size arguments (the variable count is then only known at run time)
+static void dprod_dynamic(int n, int nv)
+{
+  const Eigen::MatrixXd A = rnd_mat<-1, -1>(n, n), B = rnd_mat<-1, -1>(n, n);
+  const Eigen::MatrixXd dA = rnd_mat<-1, -1>(n, n * nv), dB = rnd_mat<-1, -1>(n, n * nv);
+  const Eigen::MatrixXd out = smooth::d_matrix_product(A, dA, B, dB);
+  Ev e;
+  e.str("op", "dprod").str("sc", "d").str("storage", "dynamic").num("n", n).num("nvar", nv).mat("A", A).mat("dA", dA).mat("B", B).mat("dB", dB).mat("out", out);
   sink.emit(e);
 }
 
@@ -67,7 +78,19 @@ static void fog_static()
   emit_fog("static", "sparse", NO, NY, NX, Jf, Hf, Jg, Hg, outs);
 }
 
-// dynamic No / Ny (d2_fog needs Nx at compile time: its second loop uses the fixed-size block<Nx, Nx>(r, c))
+// every size dynamic
+static void fog_all_dynamic(int no, int ny, int nx)
+{
+  const Eigen::MatrixXd Jf = rnd_mat<-1, -1>(no, ny), Hf = rnd_mat<-1, -1>(ny, no * ny);
+  const Eigen::MatrixXd Jg = rnd_mat<-1, -1>(ny, nx), Hg = rnd_mat<-1, -1>(nx, ny * nx);
+  const Eigen::MatrixXd out = smooth::d2_fog(Jf, Hf, Jg, Hg);
+  emit_fog("alldynamic", "dense", no, ny, nx, Jf, Hf, Jg, Hg, out);
+  const Eigen::SparseMatrix<double> Jfs = Jf.sparseView();
+  const Eigen::MatrixXd outs            = smooth::d2_fog(Jfs, Hf, Jg, Hg);
+  emit_fog("alldynamic", "sparse", no, ny, nx, Jf, Hf, Jg, Hg, outs);
+}
+
+// dynamic No / Ny, static Nx
 template<int NX>
 static void fog_dynamic(int no, int ny)
 {
@@ -96,6 +119,13 @@ int main(int argc, char ** argv)
   current_sink() = &sink;
   for (long it = 0; it < n; ++it) {
     dprod_all(std::make_integer_sequence<int, 6>{});
+    for (int n = 1; n <= 6; ++n)
+      for (int nv = 1; nv <= 6; ++nv)
+        if (it > 0 || ((n + nv) % 2 == 1)) dprod_dynamic(n, nv);
+    for (int no = 1; no <= 3; ++no)
+      for (int ny = 1; ny <= 3; ++ny)
+        for (int nx = 1; nx <= 4; ++nx)
+          if (it > 0 || ((no + ny + nx) % 3 == 0)) fog_all_dynamic(no, ny, nx);
     fog_static<1, 3, 3>();
     fog_static<2, 3, 2>();
     fog_static<3, 2, 4>();
